@@ -122,6 +122,20 @@ func (w *sessionResponseWriter) WriteHeader(statusCode int) {
 	w.wrapped.WriteHeader(statusCode)
 }
 
+// dropTrailerCookies removes the Set-Cookie fields that the wrapped handler left in the
+// header map after the response header was written, i.e. the ones that would be sent
+// to the client as trailers (declared with a `Trailer` header or not).
+//
+// Cookies in trailers are forbidden by RFC 7230 section 4.1.2, and relaying them
+// would hand backend cookies to the client without going through the session.
+func (w *sessionResponseWriter) dropTrailerCookies() {
+	header := w.Header()
+	header.Del(http.TrailerPrefix + "Set-Cookie")
+	if w.wroteHeader {
+		header.Del("Set-Cookie")
+	}
+}
+
 type sessionHandler struct {
 	c             *Cache
 	wrapped       http.Handler
@@ -172,14 +186,15 @@ func (h *sessionHandler) ServeHTTP(w http.ResponseWriter, r *http.Request) {
 	}
 	cachedCookies := cachedCookieJar.Cookies(&urlForCookies)
 	h.restoreSession(r, cachedCookies)
-	w = &sessionResponseWriter{
+	sw := &sessionResponseWriter{
 		c:             h.c,
 		sessionID:     sessionID,
 		urlForCookies: &urlForCookies,
 		wrapped:       w,
 		metricHandler: h.metricHandler,
 	}
-	h.wrapped.ServeHTTP(w, r)
+	h.wrapped.ServeHTTP(sw, r)
+	sw.dropTrailerCookies()
 }
 
 // SessionHandler returns an instance of `http.Handler` that wraps the given handler and adds proxy-side session tracking.
